@@ -171,7 +171,11 @@ for (a, b) in pairs:
             fl = 0.5                                     # both checks on for the plain-timing variant of these schemas
         pol = RequestPolicy(check_keys_publish_safety=fl < 0.8, check_keys_retire_safety=(0.1 < fl < 0.9) or fl > 0.95)
         kl, kn = skrgen.k_response(last), skrgen.k_response(new)
-        r = vlib.run_impl(check_last_skr_and_new_skr, kl, kn, pol)
+        if len(cases) % 4 == 3:
+            with vlib.debug_logging():          # every fourth pair with debug logging on (the tools' --debug): same verdict
+                r = vlib.run_impl(check_last_skr_and_new_skr, kl, kn, pol)
+        else:
+            r = vlib.run_impl(check_last_skr_and_new_skr, kl, kn, pol)
         acc = r[0] == "ok"
         accepts += acc
         want = spec(pol, last, new)
